@@ -101,12 +101,35 @@ func (e *bndEngine) genPrePost(fn *ssa.Function) {
 				}
 			}
 		}
+		// minimum lengths of slice/string parameters (constants taken from the constant
+		// indexes and slice bounds used anywhere in the fragment)
+		for _, s := range lens {
+			for _, k := range e.lenConsts() {
+				add(&pre, candLeq(candPre, linConst(k), linAtom(s), fmt.Sprintf("%s ≥ %d", names[s], k)))
+			}
+		}
 		e.pre[fn] = pre
 	}
 	// postconditions over results
 	var post []*cand
 	res := fn.Signature.Results()
 	for j := 0; j < res.Len(); j++ {
+		if hasLen(res.At(j).Type()) {
+			r := fmt.Sprintf("len(R%d)", j)
+			rn := fmt.Sprintf("len(result%d)", j)
+			for _, p := range ints {
+				add(&post, candLeq(candPost, linAtom(p), linAtom(r), rn+" ≥ "+names[p]))
+				add(&post, candLeq(candPost, linAtom(r), linAtom(p), rn+" ≤ "+names[p]))
+			}
+			for _, s := range lens {
+				add(&post, candLeq(candPost, linAtom(r), linAtom(s), rn+" ≤ "+names[s]))
+				add(&post, candLeq(candPost, linAtom(s), linAtom(r), rn+" ≥ "+names[s]))
+			}
+			for _, k := range e.lenConsts() {
+				add(&post, candLeq(candPost, linConst(k), linAtom(r), fmt.Sprintf("%s ≥ %d", rn, k)))
+			}
+			continue
+		}
 		if !isSlotInt(res.At(j).Type()) {
 			continue
 		}
@@ -127,6 +150,76 @@ func (e *bndEngine) genPrePost(fn *ssa.Function) {
 		}
 	}
 	e.post[fn] = post
+	// the same facts, required only of successful returns (error result nil) and usable by a
+	// caller only once it has seen err == nil
+	if res.Len() > 0 && isErrorType(res.At(res.Len()-1).Type()) {
+		var ok []*cand
+		for _, cd := range post {
+			c2 := *cd
+			c2.desc = cd.desc + " when err == nil"
+			c2.key = c2.desc
+			ok = append(ok, &c2)
+		}
+		e.postOK[fn] = ok
+	}
+}
+
+func isErrorType(t types.Type) bool {
+	return types.Identical(t, types.Universe.Lookup("error").Type())
+}
+
+// lenConsts: constants that matter as minimum lengths in this fragment (constant index+1,
+// constant slice bounds, constants lengths are compared with).
+func (e *bndEngine) lenConsts() []int64 {
+	if e.lenK != nil {
+		return e.lenK
+	}
+	set := map[int64]bool{}
+	for _, fn := range e.fns {
+		eachInstr(fn, func(in ssa.Instruction) {
+			switch x := in.(type) {
+			case *ssa.IndexAddr:
+				if k, ok := constInt(x.Index); ok && k >= 0 && k < 64 {
+					if _, isArr := arrayLenOf(x.X.Type()); !isArr {
+						set[k+1] = true
+					}
+				}
+			case *ssa.Index:
+				if k, ok := constInt(x.Index); ok && k >= 0 && k < 64 {
+					set[k+1] = true
+				}
+			case *ssa.Slice:
+				if _, isArr := arrayLenOf(x.X.Type()); isArr {
+					return
+				}
+				for _, v := range []ssa.Value{x.Low, x.High} {
+					if v != nil {
+						if k, ok := constInt(v); ok && k > 0 && k < 64 {
+							set[k] = true
+						}
+					}
+				}
+			case *ssa.BinOp:
+				switch x.Op {
+				case token.LSS, token.LEQ, token.GTR, token.GEQ, token.EQL, token.NEQ:
+					for _, pr := range [][2]ssa.Value{{x.X, x.Y}, {x.Y, x.X}} {
+						if c, ok := pr[0].(*ssa.Call); ok && calleeOf(c).Builtin == "len" {
+							if k, ok := constInt(pr[1]); ok && k > 0 && k < 64 {
+								set[k] = true
+							}
+						}
+					}
+				}
+			}
+		})
+	}
+	out := []int64{}
+	for k := range set {
+		out = append(out, k)
+	}
+	sort.Slice(out, func(i, j int) bool { return out[i] < out[j] })
+	e.lenK = out
+	return out
 }
 
 // genInv generates struct-invariant candidates over the fields of a tracked struct.
@@ -633,6 +726,12 @@ func (e *bndEngine) run() *bndResult {
 			e.entries[fn] = true // closures: called through values
 		}
 		for _, u := range w.usesOf(fn) {
+			if !w.IsProd(u.Fn) {
+				continue // test code may call or override anything; the property is about production wiring
+			}
+			if u.Kind == "value" && e.seamStoreOnlyCalledInFragment(u, fn) {
+				continue
+			}
 			if u.Kind != "call" || !e.frag[u.Fn] {
 				e.entries[fn] = true
 			}
@@ -666,6 +765,7 @@ func (e *bndEngine) run() *bndResult {
 	for _, fn := range e.fns {
 		all = append(all, e.pre[fn]...)
 		all = append(all, e.post[fn]...)
+		all = append(all, e.postOK[fn]...)
 		for _, c := range e.ctxs[fn] {
 			c.genBlockCands()
 			for _, b := range fn.Blocks {
@@ -738,6 +838,17 @@ func (e *bndEngine) run() *bndResult {
 							kill(cd, "not established at "+w.Pos(ret.Pos()))
 						}
 					}
+					if !c.returnsNonNilError(ret) {
+						for _, cd := range e.postOK[fn] {
+							if !cd.alive {
+								continue
+							}
+							l, ok := substLin(cd.L, bind, false)
+							if !ok || !c.proveAt(b, len(b.Instrs)-1, Ineq{l, ""}) {
+								kill(cd, "not established at successful return "+w.Pos(ret.Pos()))
+							}
+						}
+					}
 					// struct invariants at exit
 					if c.tracked != nil {
 						bindS := c.stateBinding(c.verAt[ret])
@@ -768,7 +879,8 @@ func (e *bndEngine) run() *bndResult {
 						if !ok {
 							continue
 						}
-						cal := calleeOf(call)
+						var cal Callee
+						cal.Static = w.staticOrFieldCallee(call)
 						if cal.Static != nil && e.frag[cal.Static] && !e.entries[cal.Static] {
 							bind := c.callerBinding(call, false)
 							for _, cd := range e.pre[cal.Static] {
